@@ -135,17 +135,19 @@ READS = {
     "ginit": [], "gset": [], "gget": [1], "gcopy": [2], "gswap": [1, 2],
     "uinit": [], "ualloc": [1], "uget": [1], "urelease": [1], "uswap": [1, 2], "ureset": [1],
     "sinit": [], "salloc": [1], "sunique": [1], "sget": [1], "sshare": [1, 2], "sswap": [1, 2], "sreset": [1],
+    "smany": [1],
     "winit": [], "wfrom": [1, 2], "wlock": [1, 2], "wswap": [1, 2], "wreset": [1],
     "ainit": [], "asize": [], "aset": [1], "arelease": [1], "aalloc": [1], "areset": [1], "adata": [1],
-    "aat": [1], "aslice": [1, 4], "aunslice": [1, 2],
+    "aat": [1], "aslice": [1, 4], "aunslice": [1, 2], "amany": [1],
 }
 KINDS = {
     "ginit": "g", "gset": "g", "gget": "g", "gcopy": "gg", "gswap": "gg",
     "uinit": "u", "ualloc": "u", "uget": "u", "urelease": "u", "uswap": "uu", "ureset": "u",
     "sinit": "s", "salloc": "s", "sunique": "s", "sget": "s", "sshare": "ss", "sswap": "ss", "sreset": "s",
+    "smany": "s",
     "winit": "w", "wfrom": "ws", "wlock": "ws", "wswap": "ww", "wreset": "w",
     "ainit": "a", "asize": "a", "aset": "a", "arelease": "a", "aalloc": "a", "areset": "a", "adata": "a",
-    "aat": "a", "aslice": "a", "aunslice": "aa",
+    "aat": "a", "aslice": "a", "aunslice": "aa", "amany": "a",
 }
 
 
@@ -311,6 +313,12 @@ class Ref:
                     t.owners.add(x)
                     self.tok[x] = t
                     self.expect["new"] = t
+            return ("res", "ok")
+        if o == "amany":
+            return ("res", "ok")
+        if o == "smany":
+            # many co-owners and weak references come and go (judged step by step inside the
+            # harness): no event, no change of the state
             return ("res", "ok")
         if o == "sunique":
             t = self.tok.get(x)
@@ -869,6 +877,13 @@ def _corpus():
         # defect #11 (fixed): off + end wrapped in slice
         ["aalloc a0 4 4 -", "aslice a0 2 4 a0", "aslice a0 M-2 M a1", "asize a1", "aat a1 0"],
         ["aalloc a0 4 4 -", "aslice a0 2 4 a1", "aslice a1 M-2 M a1"],
+        # reference counts far beyond anything a counter narrower than size_t can hold
+        ["salloc s0 8 1 -", "smany s0 70000", "sunique s0", "wfrom w0 s0", "smany s0 66000", "sunique s0", "sreset s0",
+         "wlock w0 s1", "wreset w0"],
+        ["salloc s0 8 1 -", "sshare s0 s1", "smany s1 300", "smany s2 5", "sreset s0", "sunique s1", "sreset s1"],
+        ["aalloc a0 4 4 -", "amany a0 70000", "aat a0 3", "aslice a0 1 3 a1", "amany a1 66000", "areset a0", "aat a1 1",
+         "areset a1"],
+        ["aset a0 E1 3 4 -", "amany a0 70000", "arelease a0"],
         # ownership corner cases of C05
         ["salloc s0 8 1 -", "wfrom w0 s0", "wlock w0 s0", "sget s0", "wlock w0 s1", "sreset s1", "wreset w0"],
         ["salloc s0 8 1 -", "sshare s0 s0", "sget s0", "wfrom w0 s0", "wlock w0 s0"],
